@@ -150,6 +150,22 @@ Theorem C19_redirect : forall es1 re es2, no_setw es1 -> no_setw es2 ->
 Proof. exact redirect_copies. Qed.
 Print Assumptions C19_redirect.
 
+(* Asynchronously written redirect targets (async file objects, StreamWriters, pipes): wait()/run()/communicate()
+   return only when the channel is closed and the writer queue has been joined; at that moment the target holds
+   exactly what was sent before the close, in order, for every interleaving of data, EOF, writer turns and close.
+   (Returning at channel close alone, without the join, is what seeded change C19-d does; the theorem is false
+   of that.) *)
+Theorem C19_wait_flushes_redirect : forall es,
+  await_done (arun es) = true -> a_target (arun es) = asent false es.
+Proof. exact wait_flushes_redirect. Qed.
+Print Assumptions C19_wait_flushes_redirect.
+
+Example C19_wait_flushes_example :
+  let es := [AvData [1]; AvTurn; AvData [2]; AvEof; AvClose] in
+  await_done (arun es) = false /\ a_target (arun es) = [TData [1]] /\
+  await_done (arun (es ++ [AvTurn; AvTurn])) = true.
+Proof. vm_compute. repeat split; reflexivity. Qed.
+
 (* drain: waits exactly while writing is paused and the channel is there; a normal return implies writing is
    not paused; a lost channel with an error, or lost while paused, makes it fail; resume_writing and
    connection_lost release a waiting drain.
